@@ -8,6 +8,7 @@ package xlatesample
 import (
 	"encoding/binary"
 	"math"
+	"sort"
 )
 
 const (
@@ -198,4 +199,9 @@ func Make(n, c int8) ([]int16, int) {
 	s := make([]int16, n, c)
 	t := make([]int16, c)
 	return s, len(t)
+}
+func Search(l []int32, k int32) (int, int) {
+	i := sort.Search(len(l), func(x int) bool { return l[x] >= k })
+	j := sort.Search(len(l)+1, func(x int) bool { return l[x] >= k }) // the predicate can panic at x = len(l)
+	return i, j
 }
